@@ -60,6 +60,12 @@ def _func_span(src: str, func: Optional[str]) -> Optional[Tuple[int, int]]:
 
 
 def apply_part(root: str, file: str, func: Optional[str], old: str, new: str) -> bool:
+    if file == '@diff':
+        # a whole patch kept under /verif/seeded (path in `old`), applied with git apply
+        import subprocess
+        r = subprocess.run(['git', 'apply', '--include=iOpt/*', os.path.join(VERIF, old)], cwd=root,
+                           capture_output=True, text=True)
+        return r.returncode == 0
     path = os.path.join(root, file)
     if not os.path.exists(path):
         return False
